@@ -31,7 +31,9 @@ CONSTANTS Ver,          \* 12 | 13
           Client13RequiresServerCert,
           Gen
 
-Creds == IF AuthType = "psk" THEN {"goodPSK", "wrongPSK"}
+\* noPSK: the rogue names an identity the honest side has no key for (its callback answers with an EMPTY key and no error)
+\* and keys its Finished with the empty key
+Creds == IF AuthType = "psk" THEN {"goodPSK", "wrongPSK", "noPSK"}
          ELSE {"good", "otherCA", "expired", "chainAkeyB"}
               \cup (IF Honest = "s" THEN {"none"} ELSE {"wrongName"})   \* a client certificate carries no name to check
 Devs  == IF AuthType = "psk" THEN {"none"}
